@@ -143,8 +143,26 @@ impl<'a, 'b> V<'a, 'b> {
     }
 }
 
+/// The enum variant for a flag byte, named directly: going through the library's own `SigHash::try_from` would make the
+/// harness skip exactly the flags a broken conversion refuses.
 fn sighash_of(f: u8) -> Option<SigHash> {
-    guard(|| SigHash::try_from(f).ok()).ok().flatten()
+    Some(match f {
+        0x01 => SigHash::ALL,
+        0x02 => SigHash::NONE,
+        0x03 => SigHash::SINGLE,
+        0x40 => SigHash::FORKID,
+        0x80 => SigHash::ANYONECANPAY,
+        0x41 => SigHash::InputsOutputs,
+        0x42 => SigHash::Inputs,
+        0x43 => SigHash::InputsOutput,
+        0xc1 => SigHash::InputOutputs,
+        0xc2 => SigHash::Input,
+        0xc3 => SigHash::InputOutput,
+        0x81 => SigHash::Legacy_InputOutputs,
+        0x82 => SigHash::Legacy_Input,
+        0x83 => SigHash::Legacy_InputOutput,
+        _ => return None,
+    })
 }
 
 // ------------------------------------------------------------------ DER / DER+flag legs (shared by library-made and synthetic signatures)
@@ -182,9 +200,15 @@ fn der_legs(v: &mut V, sig: &Signature, r: &BigUint, s: &BigUint) {
         v.acc.outcome(&[b'f', p.tag()]);
         v.expect_sig(&format!("from_der/der+flag{}", tail), &format!("from_der(DER||{:02x}) with DER={}", f, hx(&want)), p, &r32, &s32);
         let Some(sh) = sighash_of(f) else {
-            v.acc.bump("flag_not_accepted_by_SigHash_try_from", 1);
+            v.acc.bump("flag_without_enum_variant", 1);
             continue;
         };
+        // the byte <-> variant conversions must agree with the variant named above
+        match guard(|| (SigHash::try_from(f).ok(), sh as u8)) {
+            Ok((Some(t), back)) if t == sh && back == f => {}
+            Ok(other) => v.bad(&format!("SigHash::try_from/kind=wrong-conversion/flag={:02x}", f), format!("try_from({:#04x}) = {:?}, the variant converts back to {:#04x}", f, other.0, other.1)),
+            Err(p) => v.bad(&format!("SigHash::try_from/kind=panic@{}", panic_site(&p)), p),
+        }
         let ss = match guard(|| SighashSignature::new(sig, sh, &[])) {
             Ok(x) => x,
             Err(p) => {
